@@ -276,6 +276,15 @@ fn request_stream(tier: Tier, seed: u64) -> (Vec<Request>, Vec<(&'static str, us
             }
         }
     }
+    for name in crate::chars::names_near_inline_capacity() {
+        if name.contains(',') {
+            continue;
+        }
+        let enc: String = name.bytes().map(|b| format!("%{b:02X}")).collect();
+        v.push(Request::Parse(format!("pkg:generic/x?checksum={enc}:00ff")));
+        v.push(Request::Parse(format!("pkg:nuget/{enc}@1")));
+        v.push(Request::Parse(format!("pkg:pypi/{enc}@1")));
+    }
     parts.push(("token-language", v.len()));
     // the random parts are generated in parallel, each from its own fixed seed, and concatenated
     // in a fixed order: the stream is a function of (tier, seed) only
